@@ -238,6 +238,7 @@ fn run_tape(scn: Scenario, vals: &[u32], vals2: &[u32], entity_seed: u64, seed: 
 
 /// Delta-debug one vector while `fails` holds.
 fn shrink(cur: &mut Vec<u32>, budget: &mut i32, fails: &dyn Fn(&[u32]) -> bool) {
+    // (the budget also runs out with the wall-clock allowance: see `minimise`)
     // 1. shortest failing prefix (exhausted tape = benign choices)
     let (mut lo, mut hi) = (0usize, cur.len());
     while lo < hi && *budget > 0 {
@@ -295,7 +296,18 @@ fn shrink(cur: &mut Vec<u32>, budget: &mut i32, fails: &dyn Fn(&[u32]) -> bool) 
 
 /// Shrink the tapes while a violation with the same signature persists.
 fn minimise(scn: Scenario, sig: &str, vals: Vec<u32>, vals2: Vec<u32>, entity_seed: u64, seed: u64, extra: u64) -> (Vec<u32>, Vec<u32>, u64) {
-    let fails = |v: &[u32], v2: &[u32], es: u64| -> bool { run_tape(scn, v, v2, es, seed, extra, false).violations.iter().any(|x| x.sig == sig) };
+    // Runs that end in an endless re-send are cut by the watchdogs only after megabytes of output:
+    // replaying such a run thousands of times would take hours. The minimiser therefore also has
+    // a wall-clock allowance (VERIF_MINIMISE_S, default 90 s per signature); past it every further
+    // candidate counts as "does not fail", so the smallest failing tapes found so far are kept.
+    let allowance = std::time::Duration::from_secs(std::env::var("VERIF_MINIMISE_S").ok().and_then(|s| s.parse().ok()).unwrap_or(90));
+    let started = std::time::Instant::now();
+    let fails = |v: &[u32], v2: &[u32], es: u64| -> bool {
+        if started.elapsed() > allowance {
+            return false;
+        }
+        run_tape(scn, v, v2, es, seed, extra, false).violations.iter().any(|x| x.sig == sig)
+    };
     let mut cur = vals;
     let mut cur2 = vals2;
     let mut es = entity_seed;
@@ -316,7 +328,7 @@ fn minimise(scn: Scenario, sig: &str, vals: Vec<u32>, vals2: Vec<u32>, entity_se
         let c2 = cur2.clone();
         shrink(&mut cur, &mut budget, &|v: &[u32]| fails(v, &c2, es));
         let after = (cur.len(), cur2.len(), cur.iter().map(|v| *v as u64).sum::<u64>() + cur2.iter().map(|v| *v as u64).sum::<u64>());
-        if after == before || budget <= 0 {
+        if after == before || budget <= 0 || started.elapsed() > allowance {
             break;
         }
     }
